@@ -257,6 +257,38 @@ def jsonR (name : String) : List RRow :=
   ((jsonEntries.find? (fun e => e.1 == name)).map (fun e => rRowsJ jsonRead e.2.2)).getD []
 
 
+/-! ### the code's own gob tables -/
+
+def gobEntries : List (String × String × String) := [
+  ("Object", "Object.GobEncode", "Object.GobDecode"),
+  ("Actor", "Actor.GobEncode", "Actor.GobDecode"),
+  ("Activity", "Activity.GobEncode", "Activity.GobDecode"),
+  ("IntransitiveActivity", "IntransitiveActivity.GobEncode", "IntransitiveActivity.GobDecode"),
+  ("Question", "Question.GobEncode", "Question.GobDecode"),
+  ("Collection", "Collection.GobEncode", "Collection.GobDecode"),
+  ("OrderedCollection", "OrderedCollection.GobEncode", "OrderedCollection.GobDecode"),
+  ("CollectionPage", "CollectionPage.GobEncode", "CollectionPage.GobDecode"),
+  ("OrderedCollectionPage", "OrderedCollectionPage.GobEncode", "OrderedCollectionPage.GobDecode"),
+  ("Place", "Place.GobEncode", "Place.GobDecode"),
+  ("Profile", "Profile.GobEncode", "Profile.GobDecode"),
+  ("Relationship", "Relationship.GobEncode", "Relationship.GobDecode"),
+  ("Tombstone", "Tombstone.GobEncode", "Tombstone.GobDecode"),
+  ("Link", "Link.GobEncode", "Link.GobDecode"),
+  ("Source", "Source.GobEncode", "Source.GobDecode"),
+  ("PublicKey", "PublicKey.GobEncode", "PublicKey.GobDecode"),
+  ("Endpoints", "Endpoints.GobEncode", "Endpoints.GobDecode")]
+
+def gobW (name : String) : List WRow :=
+  ((gobEntries.find? (fun e => e.1 == name)).map (fun e => wRows gobMap e.2.1)).getD []
+def gobR (name : String) : List RRow :=
+  ((gobEntries.find? (fun e => e.1 == name)).map (fun e => rRowsG gobUnmap e.2.2)).getD []
+
+/-- the struct's fields with the key the gob writer files each one under -/
+def gobSchema (name : String) : Schema :=
+  (schemaOf name).map fun (f, kind, _) =>
+    (f, kind, (((gobW name).find? (fun w => w.field == f)).map (·.term)).getD "?no write row")
+
+
 /-! ### the documented normal forms (whole trees) -/
 
 def dash : Str := [45]
